@@ -517,6 +517,15 @@ def r6(repo, run):
                 run.violation('C07.R6', add, key[0], key[1], node=key[2].node)
     if n < 1:
         raise AnalysisError('Builder.add_source never reaches yaml.parse')
+    # every document add_source adds was parsed by this very call (under this call's flag): a path that adds stages without parsing
+    # hands out documents stamped with the safety of whoever parsed them first
+    for p in paths:
+        if p.status != 'return' or any(e.kind == 'call' and e.callee in ('yaml.parse', 'parse') for e in p.events):
+            continue
+        adds = [e for e in p.events if e.kind == 'call' and e.attr in ('append', 'extend', 'insert') and e.recv is not None and e.recv.text.endswith('.stages')]
+        if adds and 'stages-without-parse' not in reported:
+            reported.add('stages-without-parse')
+            run.violation('C07.R6', tr.where(add, adds[0]), norm(adds[0].node)[:90], 'on the path [%s] add_source adds documents without parsing them in this call (%s): they keep the safety flag of the call that parsed them first - a file read once from a safe place comes out safe when an unsafe source includes it later' % (tr.describe(p, 3), adds[0].args[-1].text[:50] if adds[0].args else ''), node=adds[0].node)
     if not reported:
         run.ok('C07.R6', add, 'yaml.parse(...) inside with ConfigNode.default_safe_flag(<safe and ...>)', 'the caller\'s safe flag is a conjunct on every path (%d parsing paths); defaulted only when None' % n)
     # the context manager: value installed while the body runs
